@@ -276,7 +276,16 @@ def build_optimized_pattern(choices: list[ChoiceChoice], repeat: str = "") -> st
                 else:
                     char_class_parts.append(val)
             case ChoiceLiteral(value=val, case=ChoiceCase.INSENSITIVE):
-                insensitive_parts.append(f"(?ai:{re.escape(val)})")
+                # Spelled out per character: a scoped `(?ai:...)` does not keep
+                # `regex` from folding non-ASCII characters (U+212A for "k").
+                insensitive_parts.append(
+                    "".join(
+                        f"[{ch.lower()}{ch.upper()}]"
+                        if ch.isascii() and ch.isalpha()
+                        else re.escape(ch)
+                        for ch in val
+                    )
+                )
             case ChoiceLiteral(value=val, case=ChoiceCase.SENSITIVE) if len(val) == 1:
                 char_class_parts.append(val)
             case ChoiceLiteral(value=val, case=ChoiceCase.SENSITIVE):
